@@ -174,6 +174,7 @@ class Item:
     module: str = ""
     quals: tuple = ()
     children: list = field(default_factory=list)
+    trait_full: str = ""  # for items inside `impl Trait<Args> for T`: the trait WITH its generic arguments, blanks removed (`From<u64>`)
 
     @property
     def key(self):
@@ -351,6 +352,12 @@ def parse_items(src, file="", owner="", trait="", module="", st=None, lo=0, hi=N
             it = Item("impl", ty, owner, tr, file, st[item_i].start, st[attr_i].start, st[e].end,
                       st[k].start, is_test, module, tuple(quals))
             it.children = parse_items(src, file, ty, tr, module, st, k + 1, e, is_test)
+            if for_i >= 0:
+                # full trait text (with generic arguments) so that `impl From<u64> for T` and `impl From<Option<u64>> for T`
+                # can be told apart by `fn T::from trait From<u64>` (additive: plain `trait From` keeps matching as before)
+                full = re.sub(r"\s+", "", src[st[j].start:st[for_i - 1].end])
+                for c in it.children:
+                    c.trait_full = full
             items.append(it)
             i = e + 1
             continue
